@@ -154,9 +154,11 @@ def check_points(run, a, b, r0, r1, xs, tag="C12", inp_extra=None):
         if not (isinstance(cy, (int, float)) and rlo <= cy <= rhi):
             out_by = (rlo - cy) if cy < rlo else (cy - rhi)
             small = isinstance(cy, (int, float)) and out_by <= REL * float(A.rmag)
-            run.violation(tag + (".clamp.range.rounding" if small else ".clamp.range"), inp,
-                          {"x": x, "clamped": cy, "range": [r0, r1], "outside_by": out_by, "inside_domain": lo <= x <= hi},
-                          known=ROUNDING_FINDING if small else None)
+            if small:
+                run.tolerated(tag + ".clamp.range.rounding")
+                continue
+            run.violation(tag + ".clamp.range", inp,
+                          {"x": x, "clamped": cy, "range": [r0, r1], "outside_by": out_by, "inside_domain": lo <= x <= hi})
             break
         if lo <= x <= hi and cy != y:
             run.violation(tag + ".clamp.inside", inp, {"x": x, "clamped": cy, "unclamped": y})
@@ -242,9 +244,10 @@ def check_live(run, s, inp, idx):
         if cl and not (rlo <= y <= rhi):
             out_by = (rlo - y) if y < rlo else (y - rhi)
             small = out_by <= REL * float(A.rmag)
-            run.violation("C12.history.clamp_range.rounding" if small else "C12.history.clamp_range", inp,
-                          dict(obs, x=x, got=y, outside_by=out_by, inside_domain=inside), known=ROUNDING_FINDING if small else None)
-            if not small:
+            if small:
+                run.tolerated("C12.history.clamp_range.rounding")
+            else:
+                run.violation("C12.history.clamp_range", inp, dict(obs, x=x, got=y, outside_by=out_by, inside_domain=inside))
                 return
         if (inside or not cl) and abs(Fr(y) - A.y(x)) > A.ytol(x):
             # (a scale that reports clamp() False must not clamp: it is the affine map beyond the domain too)
